@@ -61,6 +61,8 @@ def scenario(sid, case, gate=None, timeout="5s", gap_ms=0, pad=False, taskhook=N
             aw = "" if blank == "empty" else None
         roles += cs.role_call(h["id"], h["id"], ex(h["tm"], h["tw"]), aw, critical=h["crit"], timeout=timeout)
         b = {"outcome": "fail" if h["fails"] else "ok"}
+        if h.get("once"):
+            b["fail_times"] = 1
         if gate == h["id"]:
             b["gate"] = "G"
         if sametext:    # every failing hook fails with the same words (as hooks that share a cause do)
@@ -83,6 +85,14 @@ def scenario(sid, case, gate=None, timeout="5s", gap_ms=0, pad=False, taskhook=N
     for i, ev in enumerate(case["plan"], start=1):
         if i in case["bodyfails"]:
             steps.append({"do": "script", "rule": {"class": cls, "event": TEV[ev], "outcome": "err_src", "times": 1}})
+        if i in case.get("quiet", []):
+            # requested from inside the core: the task announces END_OF_STREAM, handleDeviceEvent tries STOP_ACTIVITY and only
+            # logs a failure; the end of that attempt is the release of the transition lock
+            steps += [{"do": "gate", "point": "env.lock.release", "match": {"what": ev}},
+                      {"do": "fault", "kind": "END_OF_STREAM", "class": cls},
+                      {"do": "waitgate", "point": "env.lock.release", "timeout_ms": 20000},
+                      {"do": "ungate", "point": "env.lock.release"}, {"do": "settle", "ms": 20}]
+            continue
         if gate and destroy_during:
             steps += [{"do": "control", "env": "e1", "op": ev, "caller": "A%d" % i},
                       {"do": "waitgate", "point": "probe:G", "timeout_ms": 2000},
@@ -107,7 +117,9 @@ def scenario(sid, case, gate=None, timeout="5s", gap_ms=0, pad=False, taskhook=N
     pred = case["pred"]
     if nonumber:
         pred = [{"ev": ev, "ok": False, "st": "ERROR"} for ev in case["plan"]]
-    model = {"hooks": sorted(case["hooks"], key=lambda x: x["id"]), "plan": case["plan"], "bodyfails": case["bodyfails"],
+    for h in case["hooks"]:
+        h.setdefault("once", False)
+    model = {"hooks": sorted(case["hooks"], key=lambda x: x["id"]), "plan": case["plan"], "bodyfails": case["bodyfails"], "quiet": case.get("quiet", []),
              "pred": pred, "gate": gate or "", "pad": pad, "taskhook": list(taskhook) if taskhook else [], "nonumber": nonumber}
     files = {"tasks/%s.yaml" % cls: cs.task_class(cls), "workflows/%s.yaml" % wf: cs.workflow(wf, roles)}
     files.update(files_extra)
@@ -199,6 +211,9 @@ def run_family(ctx, pid):
         ctx.save_debug(r, "gen.txt")
         raise vlib.Inconclusive("no cases generated: " + vlib.tail(r.out))
     rng.shuffle(cases)
+    # requests from inside the core (catalogue Cfg6) form a family of their own
+    eos = [c for c in cases if c.get("quiet")]
+    cases = [c for c in cases if not c.get("quiet")]
     interesting = [c for c in cases if any(h["fails"] or (h["tm"], h["tw"]) != (h["am"], h["aw"]) for h in c["hooks"]) or c["bodyfails"]]
     # the "two hooks meeting in one moment" catalogue (Cfg3Valid: h2 may be non-critical) is replayed completely
     def is_meet(c):
@@ -307,6 +322,9 @@ def run_family(ctx, pid):
         sid += 1
         ndd += 1
         scenarios.append(scenario(sid, c, gate="h1", destroy_during=True))
+    for c in eos:
+        sid += 1
+        scenarios.append(scenario(sid, c))
     # two hooks failing in one moment with the very same error text, one critical and one not
     nst = 0
     for c in [x for x in meet if all(h["fails"] for h in x["hooks"]) and len({h["crit"] for h in x["hooks"]}) == 2][:(40 if quick else 400)]:
@@ -318,7 +336,7 @@ def run_family(ctx, pid):
         sid += 1
         nn += 1
         scenarios.append(scenario(sid, c, nonumber=True))
-    ctx.log("cases from TLC: %d; scenarios: %d plain + %d gated + %d slow + %d padded + %d task-hook + %d without a run number + %d with one error text + %d destroyed during START" % (len(cases), len(plain), len(gated), len(slow), len(padded), ntask, nn, nst, ndd))
+    ctx.log("cases from TLC: %d; scenarios: %d plain + %d gated + %d slow + %d padded + %d task-hook + %d without a run number + %d with one error text + %d destroyed during START + %d with a STOP from inside the core" % (len(cases) + len(eos), len(plain), len(gated), len(slow), len(padded), ntask, nn, nst, ndd, len(eos)))
     # 3. run on the real core, 4. validate
     judge(ctx, pid, scenarios, cs.run_scenarios(ctx, scenarios))
 
